@@ -526,6 +526,11 @@ def inlineMinimize (tuples : List (List Term)) (stm : Stm) : Except String (List
         let rbody := body.filter fun b => match b with
           | .lit (_, a) => !atomEq a agg
           | .clit _ => true
+        -- fix (known_findings.json `fixed:`): the aggregate's local variables become global; they must not meet a
+        -- variable of the same name elsewhere in the body
+        let gv ← globalVarsInsideBody body
+        let localVars := ((bElemsTerms es).flatMap Term.vars).filter fun v => !gv.contains v
+        if localVars.any (fun v => (rbody.flatMap BLit.vars).contains v) then return ([stm], false)
         let maxArity : Int := (tuples.foldl (fun m t => max m t.length) 0 : Nat) - 2
         let res ← newMinimizes l c prio terms rbody (f == .count) maxArity es
         pure (res, true)
